@@ -191,6 +191,7 @@ def run(chk):
                        'rotations, generic ones) and proves rotation invariance of the component formulas; the float image of every rotated tensor is evaluated by all nine plain functions at scale '
                        '1, 1/2, 3 and 2^-40, as columns and through df.equistress; expected values come from the principal values, never from an eigen-solver. '
                        'Non-trivial = three distinct principal values and a non-trivial rotation.')
+    chk.cov['rule'] += ' Also: scale factors 0.1 and 123.456 (not exactly representable), one column with rows at magnitudes 2^-40 / 2^20 / 1, tensor columns stored in another order plus a foreign column, integer-typed components, pure shear with +0.0 / -0.0 normal components.'
     chk.cov['exhaustive'] = True
     chk.assumptions += ['when a sign indicator is mathematically zero and the tensor is not exactly representable / not diagonal, either sign is accepted (floating-point noise decides)']
 
